@@ -365,8 +365,8 @@ for n, w, t in (("c05_seq_bc_n2_streams", "broadcast N=2, two streams", "quick")
       "sequential; symbolic counts <= N; view and teardown order are harness parameters", rules=SEQRULES, teardown=True)
 for n, w in (("c05_bcfut_uni_addstream", "broadcast futures"), ("c05_mpfut_uni_addstream", "mpmc futures (move-out)")):
     H(n, FU, "C05", ["C05", "C04", "C01"], "quick",
-      w + " single-consumer receiver: into_single, add_stream_with, one send, one in-place receive on each stream, teardown; instrumented payload (double drop / use after drop asserted)",
-      "sequential", rules=FUTRULES + [(r'ReadCursor::add_stream', 3), (r'Vec.*clone|to_vec|retain|extend|spec_', 5)], teardown=True)
+      w + " single-consumer receiver: into_single, add_stream_with, one send, one in-place receive on each stream; instrumented payload (a value handed out after it was destroyed is asserted)",
+      "sequential", rules=FUTRULES + [(r'ReadCursor::add_stream', 3), (r'ReadCursor::remove_reader', 3), (r'Vec.*clone|to_vec|retain|extend|spec_', 5)])
 for n, w in (("c15_mpfut_direct_recv", "mpmc futures receiver: direct blocking recv() on an empty queue while the sender's try_send runs at every preemption point"),
              ("c15_bcfut_direct_recv_drop", "broadcast futures receiver: direct blocking recv() on an empty queue vs drop of the last sender")):
     H(n, W, "C15", ["C15", "C08"], "quick", w + "; must return the value / the end like the plain receiver and must not panic", "N=2, budget 3", rules=WRULES + FUTRULES)
